@@ -1047,7 +1047,7 @@ impl Sim for StreamSim {
     fn rule(prop: &str) -> String {
         match prop {
             "C14" => "Cases: a grammar-driven generator writes a well-formed file of 1..400 records in one of 7 format/alphabet variants together with its reference model, plus the repository's bundled files; each is delivered under a generated transport (direct BufRead or BufReader of capacity 1..len+1; chunk schedule; structure-aimed cuts at delimiters; EINTR plan). Distinct = distinct tuples (format, capacity class, EINTR yes/no, set of token classes at the chunk boundaries that actually occurred). Non-trivial = the file has >= 2 records and at least one chunk boundary fell strictly inside the data.".to_string(),
-            _ => "Cases: every single fault (EOF at each byte, each single-byte substitution from a 19-value set, each single-byte deletion, each single-byte insertion, a hard I/O error at each offset) over a fixed corpus of valid and edge-case files for the 4 formats, each under 3 delivery schedules, plus seeded multi-fault and arbitrary-byte inputs. Distinct = distinct tuples (format family, number of records returned (capped at 3), how the iteration ended: end / parse error / invalid data / utf8 / io, fault kind). Non-trivial = the reader was constructed and driven to its first error or end of input (every run).".to_string(),
+            _ => "Cases: every single fault (EOF at each byte, each single-byte substitution from a 19-value set, each single-byte deletion, each single-byte insertion, a hard I/O error at each offset) over a fixed corpus of valid and edge-case files for the 4 formats, each under 3 delivery schedules, plus seeded multi-fault and arbitrary-byte inputs, large valid files (whole / cut / late mutation), pathological repetition, multi-byte text after an early fault, and keyword splices (whole keywords - the string literals of the parser sources of the tree under test plus keywords of the formats as found in the wild - replacing a word of a line, in a cloned line, or starting a new line followed by the tail of another line or by as many small numbers as a neighbouring row has fields; numbers replaced by boundary labels). Distinct = distinct tuples (format family, number of records returned (capped at 3), how the iteration ended: end / parse error / invalid data / utf8 / io, fault kind). Non-trivial = the reader was constructed and driven to its first error or end of input (every run).".to_string(),
         }
     }
 
